@@ -112,13 +112,18 @@ def monitor_factory(items):
         head = term_head(c.term)
         err = c.fd_obs[1]
         try:
+            before = repr(err.tree)
             text = str(err)
             text2 = str(err)
+            after = repr(err.tree)
+            text3 = str(err)
         except Exception as e:
             out.append((f'C08:render-raises:{type(e).__name__}', f'str(ConvertError) raised {type(e).__name__}: {e} for {c.value!r} as {c.built.py!r}', None))
             return out
-        if text != text2:
-            out.append(('C08:render-not-deterministic', f'two renderings differ for {c.value!r}', None))
+        if text != text2 or text != text3:
+            out.append(('C08:render-not-deterministic', f'renderings of the same error differ for {c.value!r} as {c.built.py!r}: first {text[:200]!r}, later {text3[:200]!r}', None))
+        if before != after:
+            out.append(('C08:render-changes-tree', f'rendering changed the error tree of {c.value!r} as {c.built.py!r}', None))
         try:
             r = check_mentions(err.tree, text)
         except Exception as e:
@@ -157,6 +162,13 @@ def shape_cases(rng):
          [{'kind': 'a', 'x': 'no'}, {'kind': 'zzz'}, {'x': 1}, {'kind': ['a']}, 5]),
         (('enum', terms.fresh_name('En'), [('A', 1), ('B', 'b')]), [3, 'c', 2.5, None]),
     ]
+    # sums nested three and four deep (a union-like member inside a condition inside a union ...): rendering flattens them for display only
+    mixed = ('enum', terms.fresh_name('Mx'), [('A', 1), ('B', 'b')])
+    lvl2 = ('cond', ('union', [mixed, ('none',)]), ('lenrange', 0, 9))
+    lvl3 = ('union', [lvl2, ('none',)])
+    lvl4 = ('union', [('cond', ('union', [lvl2, ('scalar', 'bytes')]), ('lenrange', 0, 9)), ('none',)])
+    holder = {'name': terms.fresh_name('Sum'), 'fields': [{'name': 'f', 'ty': lvl3}, {'name': 'g', 'ty': lvl4, 'default': ('value', None)}], 'opts': {}, 'hook': None}
+    fam += [(lvl3, [[1.5], 2.5, {}]), (lvl4, [[1.5], 2.5]), (('seq', 'list', lvl3), [[2.5, None, [1]]]), (('class', holder), [{'f': 2.5}, {'f': None, 'g': [1.5]}])]
     for term, vals in fam:
         b = terms.build(term, rng)
         for v in vals:
